@@ -331,6 +331,41 @@ def object_values_harness(e):
     return scenario
 
 
+def untyped_objects_harness(e):
+    """Serializable objects held in an untyped (Any) property are handed to the JSON encoder as
+    they are (mashumaro passes untyped values through; on the unchanged tree orjson writes them as
+    plain untagged mappings, MessagePack refuses them): how they are written by default is outside
+    the claim, but a call with tag suppression still writes no type tag anywhere."""
+    import orjson
+    from models.zoo import VMany, VTyped
+    from pyoak.origin import CodeOrigin, CodePoint, CodeRange, MemoryTextSource
+    from pyoak.serialize import TYPE_KEY, SerializationOption
+
+    reset_all()
+    src = MemoryTextSource(_raw="abcdef", source_uri="u")
+    org = CodeOrigin(src, CodeRange(CodePoint(0, 1, 0), CodePoint(2, 1, 2)))
+    held = e.pick(["code-point", "tuple-with-an-origin", "dict-with-an-origin"], "held_value")
+    val = {"code-point": CodePoint(3, 1, 3), "tuple-with-an-origin": (org, 1), "dict-with-an-origin": {"o": org, "p": CodePoint(4, 1, 4)}}[held]
+    root = VMany(items=(VTyped(a=None), VTyped(a=val, i=1)), origin=org)
+    variant = e.pick(["to_json", "to_json-indent", "to_jsonb"], "front_end")
+    sort_too = e.flag("sort_keys_as_well")
+    opts = {SerializationOption.SKIP_CLASS: True, SerializationOption.SORT_KEYS: sort_too}
+    scenario = {"held_value": held, "front_end": variant, "sort_keys_as_well": bool(sort_too)}
+    try:
+        text = root.to_jsonb(serialization_options=opts) if variant == "to_jsonb" else root.to_json(indent=variant.endswith("indent"), serialization_options=opts)
+    except TypeError:
+        e.assume(False)  # the encoder refuses the held object: nothing was written
+    out = orjson.loads(text)
+    tagged = [p for p, d in _walk(out) if TYPE_KEY in d]
+    if tagged:
+        scenario.update(tagged_mappings=tagged[:6])
+        e.fail("nested-object-ignores-option:skip_class:object-in-untyped-property", scenario=scenario)
+    if not _slots_default():
+        e.fail("option-slots-not-cleared", scenario=scenario)
+    e.distinct((held, variant, bool(sort_too)))
+    return scenario
+
+
 def user_dialect_harness(e):
     """A mashumaro dialect given to one call (here: one that writes every int as a tagged string)
     reaches every nested object of that call -- nodes, origins, positions, code points -- and
@@ -439,6 +474,7 @@ def spec(tier: str, seed: int) -> Spec:
     states = ["all-registered", "cleared", "cleared-then-new-parent-with-a-registered-source"]
     fams += [Family(f"source-registry-state-{k}", make_harness(1, k, None, [0, 3], states), variables=var + "; selector: which of the tree's sources are in the source registry") for k in (SER if tier != "quick" else ["as_dict", "to_json"])]
     fams.append(Family("user-mashumaro-dialect", user_dialect_harness, variables="selectors: tree, call"))
+    fams.append(Family("serializable-objects-in-untyped-properties", untyped_objects_harness, variables="selectors: held value, JSON front-end variant, sort_keys"))
     fams.append(Family("property-values-that-are-serializable-objects", object_values_harness, variables="selectors: sibling order, front-end / dialect"))
     fams.append(Family("msgpack-dialect-on-nested-objects", dialect_harness, variables="selectors: nesting depth, tagged / untagged input"))
     return Spec(
